@@ -362,7 +362,7 @@ def generic(args, prop, worker, cfgs, confirm, level="model_checking", extra_tas
     if level == "translation_validation":
         cov["programs"] = len(ok)
         cov["disagreements_checked"] = cov["queries"]
-    for extra in ("pins", "call_instances", "ret_paths"):
+    for extra in ("pins", "call_instances", "ret_paths", "cut_paths"):
         if any(extra in r for r in ok):
             cov[extra] = sum(r.get(extra, 0) for r in ok)
     common.write_evidence(prop, tier, args.seed, level, cov, ASSUMPTIONS_A, time.time() - t0,
